@@ -74,14 +74,32 @@ def run(chk):
             # ---- R1 ---------------------------------------------------------------
             f = [g for g in F.funcs(cls, "getEnergyPartialGradByCoeffs") if len(g["params"]) == 1][0]
             chk.saw(f)
-            I = Interp(F, cls)
-            env = bind_params(I, f)
-            I.run_body(f, env)
+            # the out-parameter's incoming size and content are the caller's history: every configuration a guard on them
+            # can distinguish is followed (paths.explore), and on each of them the buffer must be sized K*N and zeroed
+            from .. import paths as _paths
+
+            def run_r1(oracle):
+                I_ = Interp(F, cls)
+                I_.opaque_conditions = True
+                I_.path_oracle = oracle
+                env_ = bind_params(I_, f)
+                try:
+                    I_.run_body(f, env_)
+                except Unsupported as ex:
+                    raise Broken("dE/dC routine not analysable: %s" % ex)
+                return I_, env_
+            r1_paths = _paths.explore(run_r1)
+            ok_pre, det_pre = True, ""
+            for a_, (I_, env_) in r1_paths:
+                out_ = env_[f["params"][0]["id"]]
+                pre = [e for e in I_.effects if e.target == out_.name]
+                okp = [e.op for e in pre][:2] == ["resize", "setZero"] and sym.is_zero(pre[0].value[0] - K * n)
+                if not okp:
+                    ok_pre = False
+                    det_pre = "when %s: effects before the loop: %s" % ({str(k_): v_ for k_, v_ in a_.items()} or "always", [(e.op, e.value) for e in pre])
+            I, env = r1_paths[0][1]
             out = env[f["params"][0]["id"]]
-            pre = [e for e in I.effects if e.target == out.name]
-            ok_pre = [e.op for e in pre][:2] == ["resize", "setZero"] and sym.is_zero(pre[0].value[0] - K * n)
-            chk.ob("C06-R1", "%s dE/dC is resized to K*N rows and zeroed first" % cls, ok_pre, loc(f),
-                   "effects before the loop: %s" % [(e.op, e.value) for e in pre], construct="%s/dEdC/init" % cls)
+            chk.ob("C06-R1", "%s dE/dC is resized to K*N rows and zeroed first, whatever the buffer held before" % cls, ok_pre, loc(f), det_pre or "%d configurations" % len(r1_paths), construct="%s/dEdC/init" % cls)
             if len(I.loops) != 1:
                 raise Broken("dE/dC: expected one loop")
             L = I.loops[0]
